@@ -12,6 +12,7 @@ import MetapypeModel.Model.Expand
 import MetapypeModel.Model.Normalize
 import MetapypeModel.Model.Evaluate
 import MetapypeModel.Model.Json
+import MetapypeModel.Model.Xml
 import MetapypeModel.Gen.Rules
 import MetapypeModel.Gen.Facts
 /-
@@ -255,6 +256,9 @@ def handle (j : Json) : Json :=
       let os (x : Option Tree) : Json := match x with | some t => treeJson t | none => .null
       Json.mkObj [("current", os (fromJ (serialize t))), ("legacy", os (legacyFromJ (legacySerialize t))),
                   ("upgraded", os (fromJ (upgrade (legacySerialize t))))]
+  | some "toxml" =>
+      let t := getTree (fld j "tree")
+      Json.mkObj [("general", .str (String.ofList (toXmlG t none 0))), ("eml", .str (String.ofList (toXmlE t 0)))]
   | some "isequal" =>
       Json.bool (isEqual (getTree (fld j "a")) (getTree (fld j "b")))
   | some "tables" =>
